@@ -431,6 +431,18 @@ pub fn drive_kex(t: &mut Tracer, tier: &str, seed: u64) {
         let (ra, rb) = (b32(&sparse_scalar(&mut rng, w % 2)), b32(&sparse_scalar(&mut rng, (w + 1) % 2)));
         run(t, sess(), &ke, b"alice", b"bob", 24, vec![ra], vec![rb], "none", "none", &mut rng);
     }
+    // the generator first offers candidates in [N, p) and the extremes (N + 5, N, N - 1, 0, 2^256 - 1: none may be used), then a valid one: both
+    // parties must still derive the same key from the scalar that was finally accepted
+    {
+        let nhex = hexb(N9_HEX);
+        let bad: Vec<[u8; 32]> = vec![b32(&be_add_small(&nhex, 5)), b32(&nhex), b32(&be_add_small(&nhex, -1)), [0u8; 32], [0xffu8; 32], b32(&be_add_small(&hexb(P9_HEX), -2))];
+        for which in 0..3 {
+            let ke = scalar(&mut rng);
+            let mut sa = if which != 1 { bad.clone() } else { vec![] }; sa.push(b32(&scalar(&mut rng)));
+            let mut sb = if which != 0 { bad.iter().rev().cloned().collect() } else { vec![] }; sb.push(b32(&scalar(&mut rng)));
+            run(t, sess(), &ke, b"alice", b"bob", 16 + which, sa, sb, "none", "none", &mut rng);
+        }
+    }
     // ke = H1(ID || 02) for one of the two identities: Q_B (resp. Q_A) = [h1]P1 + Ppub-e is a doubling in G1
     for which in 0..2 {
         let (ida, idb) = (b"Alice".to_vec(), b"Bob".to_vec());
@@ -792,6 +804,27 @@ pub fn drive_arith(t: &mut Tracer, tier: &str, seed: u64) {
             (tinf, tj, "jac-jac"), (tj, tinf, "jac-jac"), (tj, uj, "jac-jac"), (tj, g2, "jac-affine"), (g2, tj, "affine-jac"), (uj, tj2, "jac-jac")];
         for (a, b, cls) in &tpairs {
             for f in ["add", "add_full", "sub", "equals"] { g2op(t, sess(), f, a, b, &zero32, cls); }
+        }
+        // DIFFERENT G2 points with the same y: (x, y) and (omega x, y) (the twist y^2 = x^3 + 5u has the same automorphism), in affine and
+        // Jacobian forms; and representations of one point with special Z (-1, 2, u, ...)
+        {
+            let omega = [vec![0u8; 32], hexb("0000000000000000f300000002a3a6f2780272354f8b78f4d5fc11967be65333")].concat();
+            let ta = g2_affine(&tj);
+            let phi = TwistPoint { x: verif::fp2_from_bytes(&verif::fp2_op("mul", &verif::fp2_bytes(&ta.x), &omega)), y: ta.y, z: ta.z };
+            let phij = g2_rerand(&phi, &[vec![0u8; 32], scalar(&mut rng)].concat());
+            for (a, b, cls) in [(ta, phi, "same-y-affine"), (tj, phi, "same-y-jac"), (phi, tj2, "same-y-jac"), (tj, phij, "same-y-jac"), (phij, ta, "same-y-jac")] {
+                for f in ["add", "add_full", "sub", "equals"] { g2op(t, sess(), f, &a, &b, &zero32, cls); }
+            }
+            if i == 0 {
+                for (l, zc) in special_fp2(&mut rng) {
+                    let ts = g2_rerand(&ta, &l);
+                    let cls = format!("special{}", zc);
+                    for (a, b) in [(ts, ta), (ta, ts), (ts, uj), (uj, ts), (ts, ts.point_neg())] {
+                        for f in ["add", "add_full", "sub", "equals"] { g2op(t, sess(), f, &a, &b, &zero32, &cls); }
+                    }
+                    g2op(t, sess(), "dbl", &ts, &ts, &zero32, &cls); g2op(t, sess(), "mul", &ts, &ts, &scalars[1 % scalars.len()], &cls);
+                }
+            }
         }
         for a in [g2, tj, tinf] { g2op(t, sess(), "dbl", &a, &a, &zero32, "unary"); g2op(t, sess(), "neg", &a, &a, &zero32, "unary"); }
         for (j, s) in scalars.iter().enumerate() {
